@@ -449,7 +449,13 @@ def run_wiresig(ctx, rep, rule="WIRESIG", ids=None, ledger=False):
             now = reader_signatures(ctx.F, tab, p)
             for v, sig in sorted(now.items()):
                 fz = frozen.get(v, frozen.get("current"))
-                if any("BITSn" in x.split() for x in sig) or any("BITSn" in x.split() for x in fz):
+                if p.get("mode") == "kinds":
+                    # the reader iterates / buffers where the writer recurses: record boundaries are not stable under
+                    # restructuring (a peeled first iteration), the set of fields taken off the wire is
+                    kinds_ = lambda xs: {("BITSn" if re.match(r"BITS\d+$", t) else t) for x in xs for t in x.split()
+                                         if t != "KINDS"}
+                    same = kinds_(fz) == kinds_(sig)
+                elif any("BITSn" in x.split() for x in sig) or any("BITSn" in x.split() for x in fz):
                     g_ = lambda xs: sorted({" ".join(sorted(set("BITSn" if re.match(r"BITS\d+$", t) else t for t in x.split()))
                                                      if x.startswith("KINDS") else
                                                      " ".join("BITSn" if re.match(r"BITS\d+$", t) else t for t in x.split()))
